@@ -35,7 +35,9 @@ def retained_ok(obs, lim, last_seg_len):
     ml, mf, mh, _ = lim
     st = obs["state"]
     big = max(ml, mf)
-    if st["tail"] > big and st["lines"] + st.get("tlines", 0) >= 0 and not st["up"]:
+    # since 0473a42 the CR of the terminator is not counted: a line at the limit may be buffered with its CR
+    # (bound limit + 1, proved as `bounded` in Proofs/HttpLimits.v and attained: C10_example_limit_cr)
+    if st["tail"] > big + 1 and st["lines"] + st.get("tlines", 0) >= 0 and not st["up"]:
         # a tail longer than the line limit may only be kept while the message queue is full
         if lim[3] == 0:
             return f"buffered partial line of {st['tail']} bytes exceeds the limits {ml}/{mf}"
@@ -43,7 +45,7 @@ def retained_ok(obs, lim, last_seg_len):
         return f"{st['lines']} header lines retained, max_headers={mh}"
     if st["linebytes"] > mh * big:
         return "retained header bytes exceed max_headers * max(line, field)"
-    if st["ctail"] > big + last_seg_len:
+    if st["ctail"] > big + 1 + last_seg_len:
         return f"buffered partial chunk/trailer line of {st['ctail']} bytes exceeds limit + last read"
     if st.get("tlines", 0) > mh:
         return f"{st['tlines']} trailer lines retained"
